@@ -1538,10 +1538,12 @@ package sarama
 // the order it is given", T-stdlib)
 //@ func FetchResponseBlock.getAbortedTransactions#lit0(i, j) props C11
 //@   returns r
+//@   localname at: := b.AbortedTransactions
 //@   ensures[orders_by_first_offset] r == (at[i].FirstOffset < at[j].FirstOffset)
 //@   nosafety
 //@ func (b *FetchResponseBlock) getAbortedTransactions() props C11
 //@   returns r
+//@   localname at: := b.AbortedTransactions
 //@   callsite Slice: modifies maps
 //@   callsite Slice: effect forall i, j :: 0 <= i && i < j && j < len(at) ==> at[i].FirstOffset <= at[j].FirstOffset
 //@   ensures[sorted_by_first_offset] forall i, j :: 0 <= i && i < j && j < len(r) ==> r[i].FirstOffset <= r[j].FirstOffset
